@@ -485,3 +485,1455 @@ class C11(Prop):
 
     def replay(self, ctx, res, v):
         replay_generic(self, ctx, res, v, lambda o, c: {k: o[k] for k in o if k[0] in 'PR'}, 'slice')
+
+
+# =======================================================================================
+def mutate_doc(r, d, p=0.3):
+    """a variant of a document: scalars changed, members dropped — flips filter outcomes"""
+    t = d[0]
+    if t == 'a':
+        items = [mutate_doc(r, x, p) for x in d[1] if r.random() > p * 0.3]
+        return ('a', items)
+    if t == 'o':
+        return ('o', [(k, mutate_doc(r, v, p)) for k, v in d[1] if r.random() > p * 0.3])
+    if r.random() < p:
+        if t == 'n':
+            return ('n', r.choice(gens.NUM_POOL))
+        if t == 'j':
+            return ('j', r.choice(gens.JNUM_POOL))
+        if t == 's':
+            return ('s', r.choice(gens.STR_POOL))
+        if t == 'b':
+            return ('b', not d[1])
+        return r.choice([('z',), ('n', 1.0), ('s', b'x')])
+    return d
+
+
+def hist_json(cid, ops):
+    import json
+    return json.dumps({'id': cid, 'mode': 'hist', 'ops': ops})
+
+
+class RawCase:
+    """a case whose Go-side JSON is given explicitly (histories, scenarios)"""
+
+    def __init__(self, cid, text, meta=None):
+        self.id, self.text, self.meta = cid, text, meta or {}
+
+    def go_json(self):
+        return self.text
+
+
+def op_cfg(c):
+    return {'path_hex': hx(c.path), 'filters': c.filters, 'aggs': c.aggs, 'acc': c.acc, 'nocfg': c.nocfg}
+
+
+@register
+class C05(Prop):
+    id = 'C05'
+    rule = ('one parsed function called on a history of <= 8 documents (variants of one document so that consecutive '
+            'calls flip filter outcomes and failures), interleaved with unrelated Retrieve calls that recycle the pooled '
+            'buffers; every call is compared with a fresh Retrieve of the same path on that document and with the model; '
+            'earlier result slices are re-read at the end; the package-level lists are read at the end. Non-trivial: >= 2 '
+            'distinct outcomes inside one history')
+    trusted = TRUSTED_EVAL + ['identity of returned Go slices (aliasing with recycled buffers) is observed dynamically only']
+
+    def run(self, ctx, res, budget_scale=1, seed_offset=0):
+        init_globals()
+        g = gens.G(ctx.seed * 31 + 5 + seed_offset)
+        r = g.r
+        n = ctx.n(600, 12000) * budget_scale
+        base = load_corpus(self.id, ctx.root) if seed_offset == 0 else []
+        for i in range(n):
+            c = mk_eval_cases(g, 1, 'h%d_' % i, funcs=0.3, acc=0.1, jnum=0.2, filter_heavy=0.7)[0]
+            d0 = c.docs[0]
+            docs = [d0]
+            for _ in range(r.randint(2, 7)):
+                k = r.random()
+                docs.append(mutate_doc(r, d0) if k < 0.6 else (d0 if k < 0.8 else g.doc(3, False, 0)))
+            c.docs = docs
+            base.append(c)
+        raws = []
+        for c in base:
+            ops = [dict(op='parse', slot=0, **op_cfg(c))]
+            plan = []
+            for k, d in enumerate(c.docs):
+                ops.append({'op': 'call', 'slot': 0, 'doc': core.doc_go(d)})
+                plan.append(('call', k, len(ops) - 1))
+                if r.random() < 0.5:
+                    ops.append({'op': 'churn'})
+                ops.append(dict(op='retrieve', doc=core.doc_go(d), **op_cfg(c)))
+                plan.append(('fresh', k, len(ops) - 1))
+            raws.append((RawCase(c.id, hist_json(c.id, ops)), plan))
+        gos = core.run_go([x[0] for x in raws])
+        core.fill_tables(base)
+        mos = core.run_model(base)
+        for c, (raw, plan), g_, m in zip(base, raws, gos, mos):
+            res.evaluations += 1
+            hp = harness_problem(g_) or harness_problem(m)
+            if hp:
+                res.violation('broken-correspondence', 'harness:' + hp[:60], hp, c)
+                continue
+            if g_.get('O0', '').split('!')[0] != m.get('P', ''):
+                if pclass(g_.get('O0', '')) != pclass(m.get('P', '')):
+                    res.violation('concrete', sig_of(c, 'parse'), 'parse outcome differs from the model', c,
+                                  expected=m.get('P'), observed=g_.get('O0') or g_.get('P'))
+                continue
+            if m.get('P') != 'ok':
+                continue
+            outcomes = set()
+            calls = {}
+            for kind, k, opi in plan:
+                o = g_.get('O%d' % opi, '')
+                if kind == 'call':
+                    calls[k] = o
+                    outcomes.add(o)
+                    want = '%s|%s' % (m.get('R%d' % k, ''), m.get('C%d' % k, ''))
+                    if o != want:
+                        res.disagreements_checked += 1
+                        res.violation('concrete', sig_of(c, 'call-vs-model'),
+                                      'call %d of the parsed function %r differs from the model (history of %d documents)' % (k, c.path, len(c.docs)),
+                                      c, expected=want, observed=o)
+                else:
+                    if calls.get(k) != o:
+                        res.violation('concrete', sig_of(c, 'call-vs-fresh'),
+                                      'call %d of the parsed function %r differs from a fresh Retrieve on the same document' % (k, c.path),
+                                      c, expected=o, observed=calls.get(k))
+            if 'STALE' in g_:
+                res.violation('concrete', sig_of(c, 'stale-result'), 'a result slice returned earlier changed later: %s' % g_['STALE'][:200], c,
+                              observed=g_['STALE'])
+            if g_.get('G', '') != GLOBALS_INIT:
+                res.violation('concrete', sig_of(c, 'globals-changed'), 'the package-level verdict lists changed: %s' % g_.get('G'), c,
+                              expected=GLOBALS_INIT, observed=g_.get('G'))
+            if len(outcomes) >= 2:
+                res.nontrivial.add(c.path + b'|' + core.doc_render(c.docs[0]).encode())
+            res.dist['history-len-%d' % len(c.docs)] += 1
+            if len(res.samples) < 5 and len(outcomes) >= 2:
+                res.sample({'path': c.path.decode('utf-8', 'replace'), 'docs': [core.doc_json_text(d) for d in c.docs],
+                            'call outcomes': [calls[k][:120] for k in sorted(calls)]})
+
+    def replay(self, ctx, res, v):
+        c = case_from_desc(v['case'])
+        ops = [dict(op='parse', slot=0, **op_cfg(c))]
+        for d in c.docs:
+            ops.append({'op': 'call', 'slot': 0, 'doc': core.doc_go(d)})
+            ops.append(dict(op='retrieve', doc=core.doc_go(d), **op_cfg(c)))
+        g_ = core.run_go([RawCase(c.id, hist_json(c.id, ops))])[0]
+        core.fill_tables([c])
+        m = core.run_model([c])[0]
+        print('implementation:', g_)
+        print('model         :', m)
+        for k in range(len(c.docs)):
+            if g_.get('O%d' % (1 + 2 * k)) != g_.get('O%d' % (2 + 2 * k)) or \
+                    g_.get('O%d' % (1 + 2 * k)) != '%s|%s' % (m.get('R%d' % k, ''), m.get('C%d' % k, '')):
+                res.violation('concrete', 'replay', 'call %d differs from fresh Retrieve / model' % k, c)
+        if 'STALE' in g_ or g_.get('G') != GLOBALS_INIT:
+            res.violation('concrete', 'replay', 'stale result or changed globals', c)
+
+
+GLOBALS_INIT = None
+
+
+def init_globals():
+    global GLOBALS_INIT
+    if GLOBALS_INIT is None:
+        g = core.run_go([RawCase('g', hist_json('g', []))])[0]
+        GLOBALS_INIT = g.get('G', '')
+    return GLOBALS_INIT
+
+
+# =======================================================================================
+CONC_CORPUS = [
+    (b'$.a', [], []), (b'$..a', [], []), (b'$.*', [], []), (b"$['a','b']", [], []), (b'$[0:2]', [], []), (b'$..[0,1]', [], []),
+    (b'$[?(@.a == 1)]', [], []), (b'$[?(1 == 2)]', [], []), (b'$[?(@.a != $.b)]', [], []), (b'$[?(@.a < 2 && @.b)]', [], []),
+    (b'$[?(@.a =~ /x/ || !@.b)]', [], []), (b'$[?(@.a >= $[0].a)]', [], []), (b"$[?(@.b == 'x')]", [], []),
+    (b'$[?(@.a == true)]', [], []), (b'$[?(@.a == null)]', [], []), (b'$.*.twice()', ['twice'], []), (b'$.*.cnt()', [], ['cnt']),
+    (b'$[?(@.a.twice() > 1)]', ['twice'], []), (b'$..*', [], []), (b'$[*].a', [], []), (b'$[?(@.a <= 1 || @.a > 5)].b', [], []),
+    (b'$[?($.x == 1)]', [], []), (b'$.list[?($.a == 1)]', [], []), (b'$[?(@.b == $[1].b)]', [], []),
+]
+
+
+@register
+class C06(Prop):
+    id = 'C06'
+    needs_race = True
+    rule = ('scenarios run with the race detector (runner built -race, GORACE halt_on_error): 2..16 goroutines share '
+            'parsed functions (a corpus covering every node and comparator kind plus generated paths) and documents, '
+            'interleaved with Parse calls; each goroutine result is compared with the sequential result; a race report '
+            'kills the worker and is reported. Non-trivial: >= 2 goroutines x >= 2 shared functions. This part is '
+            'testing, not proof (DESIGN §6 C06)')
+    trusted = TRUSTED_EVAL + ['Go scheduler, sync.Mutex, sync.Pool and the Go memory model are not modelled; the race '
+                              'detector only sees the interleavings that happen']
+
+    def run(self, ctx, res, budget_scale=1, seed_offset=0):
+        import json
+        g = gens.G(ctx.seed * 13 + 6 + seed_offset)
+        r = g.r
+        n = ctx.n(40, 800) * budget_scale
+        raws = []
+        for i in range(n):
+            docs = [g.filter_doc(False, 0) for _ in range(r.randint(1, 3))]
+            docs.append(('a', [('o', [(b'a', ('n', 1.0)), (b'b', ('s', b'x'))]), ('o', [(b'a', ('n', 7.0))]), ('n', 3.0)]))
+            ops = []
+            picks = r.sample(CONC_CORPUS, r.randint(2, 6))
+            for p, f, a in picks:
+                ops.append({'op': 'parse', 'path_hex': hx(p), 'filters': f, 'aggs': a, 'acc': r.random() < 0.2})
+            for _ in range(r.randint(0, 3)):
+                c = mk_eval_cases(g, 1, 'x', funcs=0.3, filter_heavy=0.8)[0]
+                ops.append(dict(op='parse', **op_cfg(c)))
+                docs.append(c.docs[0])
+            for d in docs:
+                ops.append({'op': 'doc', 'doc': core.doc_go(d)})
+            threads = r.choice([2, 3, 4, 8, 16])
+            cid = 'k%d' % i
+            raws.append(RawCase(cid, json.dumps({'id': cid, 'mode': 'conc', 'ops': ops, 'threads': threads, 'rounds': r.randint(1, 3)}),
+                                meta={'threads': threads, 'paths': [unhx(o['path_hex']).decode('utf-8', 'replace') for o in ops if o['op'] == 'parse']}))
+        env_runner = core.RUNNER_RACE
+        os.environ['GORACE'] = 'halt_on_error=1'
+        gos = core.run_go(raws, jobs=4, timeout_ms=120000, runner=env_runner)
+        for raw, g_ in zip(raws, gos):
+            res.evaluations += 1
+            if g_.get('CONC', '').startswith('ok:'):
+                res.nontrivial.add(raw.id)
+                res.dist['threads-%d' % raw.meta['threads']] += 1
+                if len(res.samples) < 4:
+                    res.sample({'threads': raw.meta['threads'], 'paths': raw.meta['paths'], 'observed': g_['CONC']})
+                continue
+            what = 'data race or crash under the race detector' if g_.get('P') in ('crash', 'timeout') else 'concurrent result differs from sequential: %s' % g_.get('DIFF')
+            res.violation('concrete', 'conc|' + '|'.join(raw.meta['paths']), what,
+                          {'scenario': json.loads(raw.text), 'paths': raw.meta['paths']}, observed=g_)
+
+    def replay(self, ctx, res, v):
+        import json
+        os.environ['GORACE'] = 'halt_on_error=1'
+        sc = v['case']['scenario']
+        for k in range(5):
+            g_ = core.run_go([RawCase(sc['id'], json.dumps(sc))], jobs=1, timeout_ms=120000, runner=core.RUNNER_RACE)[0]
+            print('implementation:', g_)
+            if not g_.get('CONC', '').startswith('ok:'):
+                res.violation('concrete', 'replay', 'race / differing result reproduced', v['case'])
+                return
+
+
+# =======================================================================================
+C07_KEYS = [b'a', b'b', b'B', b'aa', b'ab', b'a-b', b'\xc3\xa9', b'z', b'Z', b'10', b'9', b'_x', b'k1', b'\xe3\x81\x82',
+            b'zz', b'a\xcc\x81', b'\xf0\x9f\x98\x80', b'{', b'~', b' ', b'', b'A', b'aaa', b'b0']
+
+
+@register
+class C07(Prop):
+    id = 'C07'
+    rule = ('objects with 2..12 keys (keys that sort differently by byte, rune and length) built in 3 insertion orders; '
+            'paths with wildcard / filter / recursive steps evaluated 8 times interleaved with evaluations on other maps; '
+            'all repetitions must return the same sequence, equal to the model (sorted keys, index order, written order, '
+            'pre-order). Non-trivial: an object with >= 3 keys reached by a wildcard/filter/recursive step')
+    trusted = TRUSTED_EVAL + ['sort.Strings is assumed to sort byte-wise; Go map iteration order is not modelled (the model '
+                              'reaches objects only through sorted keys and lookup)']
+
+    def run(self, ctx, res, budget_scale=1, seed_offset=0):
+        g = gens.G(ctx.seed * 17 + 7 + seed_offset)
+        r = g.r
+        n = ctx.n(500, 10000) * budget_scale
+        cases = load_corpus(self.id, ctx.root) if seed_offset == 0 else []
+        templates = [b'$.*', b'$..*', b'$[*]', b'$..[*]', b'$[?(@)]', b'$..[?(@)]', b'$.*.*', b'$..a', b"$..['a','b']",
+                     b'$[?(@.a)]', b'$..[?(@.a || @.b)]', b'$.*[*]', b'$..*.*', b"$['b','a',*]", b'$[*,*]']
+        for i in range(n):
+            def obj(depth):
+                ks = r.sample(C07_KEYS, r.randint(2, 12))
+                return ('o', [(k, (obj(depth - 1) if depth > 0 and r.random() < 0.25 else
+                                   (('a', [obj(0) if r.random() < 0.3 and depth > 0 else g.scalar() for _ in range(r.randint(0, 3))])
+                                    if r.random() < 0.2 else g.scalar()))) for k in ks])
+            d = obj(2)
+            perms = [d]
+            for _ in range(2):
+                perms.append(shuffle_doc(r, d))
+            other = [g.doc(2, False, 0, keys=C07_KEYS[:12]) for _ in range(2)]
+            docs = [perms[0], other[0], perms[1], perms[2], other[1], perms[0], perms[1], perms[2], perms[0], perms[1]]
+            if r.random() < 0.6:
+                path = r.choice(templates)
+            else:
+                steps = g.gen_path(d, 3, 0.0)
+                path = gens.render_path(steps)
+            cases.append(Case('p%d' % i, path, docs, meta={'perm_idx': [0, 2, 3, 5, 6, 7, 8, 9], 'nkeys': len(d[1])}))
+        go, mo = both_sides(cases)
+        for c, g_, m in zip(cases, go, mo):
+            res.evaluations += 1
+            hp = harness_problem(g_) or harness_problem(m)
+            if hp:
+                res.violation('broken-correspondence', 'harness:' + hp[:60], hp, c)
+                continue
+            idx = c.meta.get('perm_idx') or list(range(len(c.docs)))
+            seqs = [g_.get('R%d' % k, 'P:' + g_.get('P', '')) for k in idx]
+            if len(set(seqs)) > 1:
+                res.violation('concrete', sig_of(c, 'order-unstable'),
+                              'repeated evaluation of %r on equal documents returned different sequences' % (c.path,), c, observed=sorted(set(seqs))[:3])
+            for k in range(len(c.docs)):
+                a, b = g_.get('R%d' % k, 'P:' + g_.get('P', '')), m.get('R%d' % k, 'P:' + m.get('P', ''))
+                if a != b:
+                    res.disagreements_checked += 1
+                    res.violation('concrete', sig_of(c, 'order-vs-model'), 'result sequence of %r differs from the model (document %d)' % (c.path, k), c,
+                                  expected=b, observed=a)
+                    break
+            if seqs[0].startswith('ok:') and c.meta.get('nkeys', 0) >= 3 and len(values_of(seqs[0])) >= 2:
+                res.nontrivial.add((c.path, core.doc_render(c.docs[0])))
+                if len(res.samples) < 5:
+                    res.sample({'path': c.path.decode('utf-8', 'replace'), 'doc': core.doc_json_text(c.docs[0])[:300], 'observed': seqs[0][:300]})
+            res.dist[cls_of(seqs[0])] += 1
+
+    def replay(self, ctx, res, v):
+        c = case_from_desc(v['case'])
+        go, mo = both_sides([c])
+        print('implementation:', go[0])
+        print('model         :', mo[0])
+        if {k: x for k, x in go[0].items() if k[0] == 'R'} != {k: x for k, x in mo[0].items() if k[0] == 'R'}:
+            res.violation('concrete', 'replay', 'sequence differs from the model', c)
+
+
+def shuffle_doc(r, d):
+    if d[0] == 'o':
+        items = [(k, shuffle_doc(r, v)) for k, v in d[1]]
+        r.shuffle(items)
+        return ('o', items)
+    if d[0] == 'a':
+        return ('a', [shuffle_doc(r, x) for x in d[1]])
+    return d
+
+
+# =======================================================================================
+def go_float_text(x):
+    """the shortest decimal spelling encoding/json prints for a float64"""
+    import math
+    if x == int(x) and abs(x) < 1e21:
+        return str(int(x))
+    s = repr(x)
+    if 'e' in s:
+        m, e = s.split('e')
+        if m.endswith('.0'):
+            m = m[:-2]
+        sign = '-' if e.startswith('-') else '+'
+        e = e.lstrip('+-').lstrip('0') or '0'
+        if len(e) < 2:
+            e = '0' + e
+        return '%se%s%s' % (m, sign, e)
+    return s
+
+
+def to_jnum(d):
+    t = d[0]
+    if t == 'n':
+        import math
+        if math.isinf(d[1]) or math.isnan(d[1]):
+            return d
+        return ('j', go_float_text(d[1]))
+    if t == 'a':
+        return ('a', [to_jnum(x) for x in d[1]])
+    if t == 'o':
+        return ('o', [(k, to_jnum(v)) for k, v in d[1]])
+    return d
+
+
+def canon_nums(r):
+    """replace every j(hex spelling) in a rendering by the n(m,e) rendering of its value"""
+    def rep(m):
+        return core.render_num(float(unhx(m.group(1)).decode()))
+    return re.sub(r'j\(([0-9a-f]+)\)', rep, r)
+
+
+def distinct_members(g, jnum=False, opaque=0.0, n=None):
+    """a list of pairwise distinct members (objects get a unique key u)"""
+    r = g.r
+    n = r.randint(0, 6) if n is None else n
+    ms = g.similar_members(n, jnum, opaque)
+    out, seen = [], set()
+    for i, m in enumerate(ms):
+        if m[0] == 'o':
+            m = ('o', list(m[1]) + [(b'u', ('n', float(i)))])
+        k = core.doc_render(m)
+        tries = 0
+        while k in seen and tries < 20:
+            m = ('s', b'uniq%d' % (i * 31 + tries))
+            k = core.doc_render(m)
+            tries += 1
+        seen.add(k)
+        out.append(m)
+    return out
+
+
+def selection(obs):
+    """the selected members of `$[?(…)]` as a list of renderings; None when the call did not
+    end in ok / member-not-exist"""
+    if obs.startswith('ok:['):
+        return values_of(obs)
+    if cls_of(obs) == 'mne':
+        return []
+    return None
+
+
+@register
+class C08(Prop):
+    id = 'C08'
+    rule = ('generated paths split at every step boundary into P and Q (Q without $-rooted operands and aggregates): '
+            'retrieve P++Q, retrieve P, then retrieve $++Q from every value P returned (three kinds of retrievals on '
+            'the implementation, no model needed), and the concatenation must equal the first; also compared with the '
+            'model. Non-trivial: both P and P++Q select >= 1 value')
+    trusted = TRUSTED_EVAL
+
+    def run(self, ctx, res, budget_scale=1, seed_offset=0):
+        g = gens.G(ctx.seed * 19 + 8 + seed_offset)
+        g.allow_root = False
+        g.allow_agg = False
+        r = g.r
+        n = ctx.n(1500, 30000) * budget_scale
+        items = []
+        for i in range(n):
+            doc = g.filter_doc(False, 0) if r.random() < 0.4 else g.doc(3, r.random() < 0.15, 0)
+            steps = g.gen_path(doc, 4, 0.25)
+            if len(steps) < 2:
+                steps = steps + g.gen_path(doc, 2, 0.0)
+            f, a = gens.funcs_used(steps)
+            for k in range(1, len(steps)):
+                items.append((doc, steps[:k], steps[k:], f))
+        corpus = load_corpus(self.id, ctx.root) if seed_offset == 0 else []
+        whole = [Case('w%d' % i, gens.render_path(p + q), [doc], f, []) for i, (doc, p, q, f) in enumerate(items)]
+        pre = [Case('p%d' % i, gens.render_path(p), [doc], f, []) for i, (doc, p, q, f) in enumerate(items)]
+        go_w, mo_w = both_sides(whole + corpus)
+        go_p = core.run_go(pre)
+        # third retrievals: $Q on every value P selected
+        third, owner = [], []
+        for i, ((doc, p, q, f), gp) in enumerate(zip(items, go_p)):
+            rp = gp.get('R0', '')
+            if not rp.startswith('ok:['):
+                continue
+            try:
+                vals = [parse_render(v) for v in values_of(rp)]
+            except Exception:
+                continue
+            qpath = gens.render_path(q)
+            for j, v in enumerate(vals):
+                third.append(Case('t%d_%d' % (i, j), qpath, [v], f, []))
+                owner.append(i)
+        go_t = core.run_go(third) if third else []
+        per = collections.defaultdict(list)
+        for i, gt in zip(owner, go_t):
+            per[i].append(gt.get('R0', 'P:' + gt.get('P', '')))
+        for i, (c, gw, mw) in enumerate(zip(whole + corpus, go_w, mo_w)):
+            res.evaluations += 1
+            hp = harness_problem(gw) or harness_problem(mw)
+            if hp:
+                res.violation('broken-correspondence', 'harness:' + hp[:60], hp, c)
+                continue
+            rw = gw.get('R0', 'P:' + gw.get('P', ''))
+            rm = mw.get('R0', 'P:' + mw.get('P', ''))
+            a = rw if rw.startswith('ok:') else ('fail' if cls_of(rw) in ('mne', 'tum', 'ff') else rw)
+            b = rm if rm.startswith('ok:') else ('fail' if cls_of(rm) in ('mne', 'tum', 'ff') else rm)
+            if a != b:
+                res.disagreements_checked += 1
+                res.violation('concrete', sig_of(c, 'compose-vs-model'), 'values of %r differ from the model' % (c.path,), c, expected=rm, observed=rw)
+            if i >= len(items) or gw.get('P') != 'ok':
+                continue
+            doc, p, q, f = items[i]
+            rp = go_p[i].get('R0', '')
+            if go_p[i].get('P') != 'ok':
+                continue
+            if rp.startswith('ok:['):
+                parts = []
+                bad = False
+                for o in per.get(i, []):
+                    if o.startswith('ok:['):
+                        parts += values_of(o)
+                    elif cls_of(o) not in ('mne', 'tum', 'ff'):
+                        bad = True
+                if bad:
+                    continue
+                expect = 'ok:[' + ','.join(parts) + ']' if parts else 'fail'
+            else:
+                expect = 'fail'
+            if a != expect:
+                res.violation('concrete', sig_of(c, 'compose'),
+                              'P=%r Q=%r: retrieving P++Q differs from retrieving $++Q from every value of P' %
+                              (gens.render_path(p), gens.render_path(q)), c, expected=expect, observed=rw,
+                              extra={'P': gens.render_path(p).decode('utf-8', 'replace'), 'Q': gens.render_path(q).decode('utf-8', 'replace')})
+            if rw.startswith('ok:') and rp.startswith('ok:'):
+                res.nontrivial.add((c.path, core.doc_render(doc)))
+                if len(res.samples) < 5:
+                    res.sample({'P': gens.render_path(p).decode('utf-8', 'replace'), 'Q': gens.render_path(q).decode('utf-8', 'replace'),
+                                'doc': core.doc_json_text(doc)[:300], 'P++Q': rw[:200], 'P': rp[:200]})
+            res.dist[cls_of(rw)] += 1
+
+    def replay(self, ctx, res, v):
+        c = case_from_desc(v['case'])
+        go, mo = both_sides([c])
+        print('implementation:', go[0])
+        print('model         :', mo[0])
+        if 'P' in v and 'Q' in v:
+            gp = core.run_go([Case('p', v['P'].encode(), c.docs, c.filters, c.aggs)])[0]
+            print('P alone       :', gp)
+            parts = []
+            if gp.get('R0', '').startswith('ok:['):
+                for x in values_of(gp['R0']):
+                    gt = core.run_go([Case('t', v['Q'].encode(), [parse_render(x)], c.filters, c.aggs)])[0]
+                    print('   $Q on', x[:80], '->', gt.get('R0'))
+                    if gt.get('R0', '').startswith('ok:['):
+                        parts += values_of(gt['R0'])
+            expect = 'ok:[' + ','.join(parts) + ']' if parts else 'fail'
+            rw = go[0].get('R0', '')
+            if (rw if rw.startswith('ok:') else 'fail') != expect:
+                res.violation('concrete', 'replay', 'composition fails', c)
+        if {k: x for k, x in go[0].items() if k[0] == 'R' and x.startswith('ok')} != {k: x for k, x in mo[0].items() if k[0] == 'R' and x.startswith('ok')}:
+            res.violation('concrete', 'replay', 'differs from the model', c)
+
+
+# =======================================================================================
+def fexpr_paths(container_path, exprs):
+    return [container_path + b'[?(' + e + b')]' for e in exprs]
+
+
+@register
+class C09(Prop):
+    id = 'C09'
+    rule = ('families of related filters over one container of 0..6 pairwise distinct members (arrays and objects; '
+            'members hit, miss or mistype the operand paths): A, B, A&&B, A||B; p, !p; x==y, x!=y; a<b, b>a (all six '
+            'operators mirrored, both orders, literal/@/$ operands); a<=n, a<n, a==n against number literals. The '
+            'selections must satisfy the set identities, and every retrieval is also compared with the model. '
+            'Non-trivial: the related filters select different non-empty sets on a container of >= 2 members')
+    trusted = TRUSTED_EVAL
+
+    def run(self, ctx, res, budget_scale=1, seed_offset=0):
+        g = gens.G(ctx.seed * 23 + 9 + seed_offset)
+        r = g.r
+        n = ctx.n(2500, 50000) * budget_scale
+        sp = gens.Spelling()
+        fams = []
+        for i in range(n):
+            jn = r.random() < 0.15
+            ms = distinct_members(g, jn)
+            if r.random() < 0.6:
+                body = ('a', ms)
+            else:
+                body = ('o', list(zip(r.sample(gens.KEY_POOL, len(ms)), ms)))
+            top = [(b'list', body)] + [(k, g.scalar(jn)) for k in r.sample(gens.KEY_POOL[:6], r.randint(0, 3))]
+            doc = ('o', top)
+            k = r.random()
+            if k < 0.35:
+                A = gens.render_fexpr(g.gen_fexpr(body, doc, 1), sp)
+                B = gens.render_fexpr(g.gen_fexpr(body, doc, 1), sp)
+                exprs = {'A': A, 'B': B, 'and': b'(' + A + b') && (' + B + b')', 'or': b'(' + A + b') || (' + B + b')'}
+                kind = 'andor'
+            elif k < 0.5:
+                e = g.gen_fexpr(body, doc, 0)
+                while e[0] not in ('exists', 'not'):
+                    e = g.gen_fexpr(body, doc, 0)
+                p = gens.render_operand(e[1], sp)
+                exprs = {'p': p, 'notp': b'!' + p}
+                kind = 'not'
+            else:
+                e = g.gen_fexpr(body, doc, 0)
+                while e[0] != 'cmp':
+                    e = g.gen_fexpr(body, doc, 0)
+                _, op, lhs, rhs = e
+                if r.random() < 0.5:
+                    lhs, rhs = rhs, lhs
+                L, R = gens.render_operand(lhs, sp), gens.render_operand(rhs, sp)
+                exprs = {}
+                for o in ('==', '!=', '<', '<=', '>', '>='):
+                    exprs['l' + o] = L + b' ' + o.encode() + b' ' + R
+                    exprs['r' + o] = R + b' ' + o.encode() + b' ' + L
+                kind = 'cmp:%s:%s' % (lhs[0], rhs[0])
+                exprs['_numlit'] = (lhs[0] == 'lit' and lhs[1][0] == 'n') or (rhs[0] == 'lit' and rhs[1][0] == 'n')
+            fams.append((doc, kind, exprs))
+        cases, index = [], []
+        for fi, (doc, kind, exprs) in enumerate(fams):
+            for name, e in exprs.items():
+                if name.startswith('_'):
+                    continue
+                cases.append(Case('f%d_%s' % (fi, name), b'$.list[?(' + e + b')]', [doc]))
+                index.append((fi, name))
+        corpus = load_corpus(self.id, ctx.root) if seed_offset == 0 else []
+        go, mo = both_sides(cases + corpus)
+        sel = collections.defaultdict(dict)
+        for (c, g_, m), ix in zip(zip(cases + corpus, go, mo), index + [None] * len(corpus)):
+            res.evaluations += 1
+            hp = harness_problem(g_) or harness_problem(m)
+            if hp:
+                res.violation('broken-correspondence', 'harness:' + hp[:60], hp, c)
+                continue
+            a = g_.get('R0', 'P:' + g_.get('P', ''))
+            b = m.get('R0', 'P:' + m.get('P', ''))
+            if (a if a.startswith('ok:') else cls_of(a)) != (b if b.startswith('ok:') else cls_of(b)):
+                res.disagreements_checked += 1
+                res.violation('concrete', sig_of(c, 'filter-vs-model'), 'selection of %r differs from the model' % (c.path,), c, expected=b, observed=a)
+            if crashy(a) or crashy(g_.get('P', 'ok')):
+                res.violation('concrete', sig_of(c, 'filter-crash'), 'outcome %s for %r' % (a[:100], c.path), c, observed=a)
+            if ix is not None:
+                sel[ix[0]][ix[1]] = selection(a) if g_.get('P') == 'ok' else None
+                sel[ix[0]]['case:' + ix[1]] = c
+        for fi, (doc, kind, exprs) in enumerate(fams):
+            s = sel.get(fi, {})
+            members = [core.doc_render(m) for m in (doc[1][0][1][1] if doc[1][0][1][0] == 'a' else
+                                                    [v for _, v in sorted(doc[1][0][1][1])])]
+
+            def order(xs):
+                return [m for m in members if m in set(xs)]
+
+            def check(name, got, want, what):
+                if got is None or want is None:
+                    return
+                if got != want:
+                    res.violation('concrete', sig_of(s['case:' + name], 'boolean-algebra:' + what),
+                                  '%s violated by %r' % (what, s['case:' + name].path), s['case:' + name], expected=want, observed=got)
+                elif len(members) >= 2 and 0 < len(got) < len(members):
+                    res.nontrivial.add((s['case:' + name].path, core.doc_render(doc)))
+                    if len(res.samples) < 6:
+                        res.sample({'law': what, 'filter': s['case:' + name].path.decode('utf-8', 'replace'),
+                                    'members': len(members), 'selected': len(got)})
+            res.dist[kind.split(':')[0]] += 1
+            if kind == 'andor':
+                A, B = s.get('A'), s.get('B')
+                if A is not None and B is not None:
+                    check('and', s.get('and'), order(set(A) & set(B)), 'A && B = intersection')
+                    check('or', s.get('or'), order(set(A) | set(B)), 'A || B = union')
+            elif kind == 'not':
+                p = s.get('p')
+                if p is not None:
+                    check('notp', s.get('notp'), order(set(members) - set(p)), '!path = complement')
+            else:
+                for side in 'lr':
+                    eq = s.get(side + '==')
+                    if eq is not None:
+                        check(side + '!=', s.get(side + '!='), order(set(members) - set(eq)), 'x != y = complement of x == y')
+                for o, mo_ in (('==', '=='), ('!=', '!='), ('<', '>'), ('<=', '>='), ('>', '<'), ('>=', '<=')):
+                    check('r' + mo_, s.get('r' + mo_), s.get('l' + o), 'mirrored operands (a %s b vs b %s a)' % (o, mo_))
+                if exprs.get('_numlit'):
+                    for side in 'lr':
+                        lt, le, eq, gt, ge = (s.get(side + o) for o in ('<', '<=', '==', '>', '>='))
+                        if lt is not None and eq is not None:
+                            check(side + '<=', le, order(set(lt) | set(eq)), '<= is < or ==')
+                        if gt is not None and eq is not None:
+                            check(side + '>=', ge, order(set(gt) | set(eq)), '>= is > or ==')
+
+    def replay(self, ctx, res, v):
+        replay_generic(self, ctx, res, v, lambda o, c: {k: (x if x.startswith('ok:') else cls_of(x)) for k, x in o.items() if k[0] in 'PR'}, 'selection')
+        if 'expected' in v and isinstance(v['expected'], list):
+            c = case_from_desc(v['case'])
+            g_ = core.run_go([c])[0]
+            if selection(g_.get('R0', '')) != v['expected']:
+                res.violation('concrete', 'replay', 'the set identity still fails: selected %s, identity requires %s' % (selection(g_.get('R0', '')), v['expected']), c)
+
+
+# =======================================================================================
+JSON_TYPE = {'n': 'number', 'j': 'number', 's': 'string', 'b': 'bool', 'z': 'null', 'a': 'array', 'o': 'object', 'x': 'foreign'}
+
+
+@register
+class C10(Prop):
+    id = 'C10'
+    rule = ('comparison filters (six operators, regex; literal/@/$ operands in both orders) over containers whose '
+            'members hold every JSON type, each document evaluated in both decodings (float64 and json.Number with '
+            "Go's shortest spelling): the selections must be equal; for `@.k OP literal` every selected member's "
+            'operand must have the literal\'s JSON type (ordering: number, regex: string); all compared with the model. '
+            'Non-trivial: >= 1 member selected and >= 2 JSON types under the compared operand')
+    trusted = TRUSTED_EVAL + ['json.Number.Float64() is modelled by the exact value of the spelling']
+
+    def run(self, ctx, res, budget_scale=1, seed_offset=0):
+        g = gens.G(ctx.seed * 29 + 10 + seed_offset)
+        r = g.r
+        n = ctx.n(4000, 80000) * budget_scale
+        sp = gens.Spelling()
+        cases = load_corpus(self.id, ctx.root) if seed_offset == 0 else []
+        ncorp = len(cases)
+        meta = [None] * ncorp
+        for i in range(n):
+            ms = distinct_members(g, False)
+            body = ('a', ms) if r.random() < 0.6 else ('o', list(zip(r.sample(gens.KEY_POOL, len(ms)), ms)))
+            top = [(b'list', body)] + [(k, g.scalar(False)) for k in r.sample(gens.KEY_POOL[:6], r.randint(0, 3))]
+            doc = ('o', top)
+            k = r.random()
+            if k < 0.5:
+                # @.key OP literal (either order): the type-strictness oracle applies
+                key = g.pick_key(r.choice(ms) if ms else None)
+                lit = g.gen_literal(r.choice(ms) if ms else None)
+                op = r.choice(['==', '!=', '<', '<=', '>', '>=', '=~'])
+                if op in ('<', '<=', '>', '>=') and lit[0] != 'n':
+                    lit = ('n', r.choice(gens.NUM_POOL[:10]))
+                operand = b'@' + gens.render_step(('name', key, 'sq'), sp)
+                if op == '=~':
+                    text = operand + b' =~ /' + r.choice([b'^a', b'b$', b'.', b'x', b'^$', b'1']) + b'/'
+                    lit = ('s', b'')
+                elif r.random() < 0.5:
+                    text = operand + b' ' + op.encode() + b' ' + gens.render_literal(lit, sp)
+                else:
+                    text = gens.render_literal(lit, sp) + b' ' + op.encode() + b' ' + operand
+                info = (key, op, lit)
+            else:
+                e = g.gen_fexpr(body, doc, 0)
+                while e[0] not in ('cmp', 're'):
+                    e = g.gen_fexpr(body, doc, 0)
+                text = gens.render_fexpr(e, sp)
+                info = None
+            cases.append(Case('t%d' % i, b'$.list[?(' + text + b')]', [doc, to_jnum(doc)]))
+            meta.append((info, ms))
+        go, mo = both_sides(cases)
+        for c, g_, m, mt in zip(cases, go, mo, meta):
+            res.evaluations += 1
+            hp = harness_problem(g_) or harness_problem(m)
+            if hp:
+                res.violation('broken-correspondence', 'harness:' + hp[:60], hp, c)
+                continue
+            obs = []
+            for k in range(len(c.docs)):
+                a = g_.get('R%d' % k, 'P:' + g_.get('P', ''))
+                b = m.get('R%d' % k, 'P:' + m.get('P', ''))
+                obs.append(a)
+                if (a if a.startswith('ok:') else cls_of(a)) != (b if b.startswith('ok:') else cls_of(b)):
+                    res.disagreements_checked += 1
+                    res.violation('concrete', sig_of(c, 'compare-vs-model'), 'selection of %r differs from the model (decoding %d)' % (c.path, k), c,
+                                  expected=b, observed=a)
+                if crashy(a):
+                    res.violation('concrete', sig_of(c, 'compare-crash'), 'outcome %s for %r' % (a[:100], c.path), c, observed=a)
+            if g_.get('P') != 'ok' or len(obs) < 2:
+                continue
+            s0, s1 = selection(obs[0]), selection(obs[1])
+            if s0 is not None and s1 is not None and s0 != [canon_nums(x) for x in s1]:
+                res.violation('concrete', sig_of(c, 'decode-dependent'),
+                              '%r selects different members under float64 and json.Number decoding' % (c.path,), c,
+                              expected=s0, observed=s1)
+            if mt is None:
+                continue
+            info, ms = mt
+            types = set()
+            if info and s0 is not None:
+                key, op, lit = info
+                want_t = 'number' if op in ('<', '<=', '>', '>=') else ('string' if op == '=~' else JSON_TYPE[lit[0]])
+                by_render = {core.doc_render(x): x for x in ms}
+                for x in ms:
+                    v = g.lookup(x, key)
+                    types.add(JSON_TYPE[v[0]] if v is not None else 'missing')
+                if op != '!=':
+                    for sel in s0:
+                        x = by_render.get(sel)
+                        v = g.lookup(x, key) if x is not None else None
+                        if v is None or JSON_TYPE[v[0]] != want_t:
+                            res.violation('concrete', sig_of(c, 'type-coercion'),
+                                          '%r selected a member whose operand is %s, not a %s' %
+                                          (c.path, 'missing' if v is None else JSON_TYPE[v[0]], want_t), c, observed=sel)
+            if s0 and (len(types) >= 2 or info is None):
+                res.nontrivial.add((c.path, core.doc_render(c.docs[0])))
+                if len(res.samples) < 5:
+                    res.sample({'filter': c.path.decode('utf-8', 'replace'), 'doc': core.doc_json_text(c.docs[0])[:300],
+                                'selected(float64)': len(s0), 'selected(json.Number)': len(s1 or [])})
+            res.dist[cls_of(obs[0])] += 1
+
+    def replay(self, ctx, res, v):
+        c = case_from_desc(v['case'])
+        go, mo = both_sides([c])
+        print('implementation:', go[0])
+        print('model         :', mo[0])
+        pg = {k: (x if x.startswith('ok:') else cls_of(x)) for k, x in go[0].items() if k[0] in 'PR'}
+        pm = {k: (x if x.startswith('ok:') else cls_of(x)) for k, x in mo[0].items() if k[0] in 'PR'}
+        if pg != pm:
+            res.violation('concrete', 'replay', 'differs from the model', c)
+        if len(c.docs) == 2:
+            s0, s1 = selection(go[0].get('R0', '')), selection(go[0].get('R1', ''))
+            if s0 is not None and s1 is not None and s0 != [canon_nums(x) for x in s1]:
+                res.violation('concrete', 'replay', 'decode-dependent selection', c)
+
+
+# =======================================================================================
+@register
+class C12(Prop):
+    id = 'C12'
+    rule = ('generated paths with functions after every step kind and inside filter operands, evaluated once per mode '
+            '(accessor off/on) with identical recording function sets: values after unwrapping, order, error and the '
+            'argument logs must be equal; both modes also compared with the model. Non-trivial: a function or filter '
+            'operand is present, or >= 2 results')
+    trusted = TRUSTED_EVAL
+
+    def run(self, ctx, res, budget_scale=1, seed_offset=0):
+        g = gens.G(ctx.seed * 37 + 12 + seed_offset)
+        n = ctx.n(3000, 60000) * budget_scale
+        plain = mk_eval_cases(g, n, 'c', funcs=0.5, acc=0.0, jnum=0.15, filter_heavy=0.5)
+        plain += load_corpus(self.id, ctx.root) if seed_offset == 0 else []
+        for c in plain:
+            c.acc = False
+        accs = [Case('a' + c.id, c.path, c.docs, c.filters, c.aggs, True, c.nocfg, c.mode, c.meta) for c in plain]
+        go, mo = both_sides(plain + accs)
+        k = len(plain)
+        for i, c in enumerate(plain):
+            res.evaluations += 1
+            gp, ga, mp, ma = go[i], go[i + k], mo[i], mo[i + k]
+            hp = harness_problem(gp) or harness_problem(ga) or harness_problem(mp) or harness_problem(ma)
+            if hp:
+                res.violation('broken-correspondence', 'harness:' + hp[:60], hp, c)
+                continue
+            for x, y, label, cc in ((gp, mp, 'plain', c), (ga, ma, 'accessor', accs[i])):
+                px = {kk: vv for kk, vv in x.items() if kk[0] in 'PRC' and kk != 'P'}
+                py = {kk: vv for kk, vv in y.items() if kk[0] in 'PRC' and kk != 'P'}
+                if px != py or pclass(x.get('P', '')) != pclass(y.get('P', '')):
+                    res.disagreements_checked += 1
+                    res.violation('concrete', sig_of(cc, 'mode-vs-model:' + label), '%s mode: %r differs from the model' % (label, c.path), cc,
+                                  expected=py, observed=px)
+            if gp.get('P') != ga.get('P'):
+                res.violation('concrete', sig_of(c, 'mode-parse'), 'Parse outcome depends on accessor mode for %r' % (c.path,), c,
+                              expected=gp.get('P'), observed=ga.get('P'))
+                continue
+            for kk in rkeys(gp, 'R'):
+                a, b = gp[kk], unwrap_acc(ga.get(kk, ''))
+                if a != b:
+                    res.violation('concrete', sig_of(c, 'mode-values'), 'accessor mode changes the selection of %r' % (c.path,), c,
+                                  expected=a, observed=ga.get(kk))
+                ca, cb = gp.get('C' + kk[1:], ''), ga.get('C' + kk[1:], '')
+                if ca != cb:
+                    res.violation('concrete', sig_of(c, 'mode-calls'), 'user functions see different arguments in accessor mode for %r' % (c.path,), c,
+                                  expected=ca, observed=cb)
+                if ga.get(kk, '').startswith('ok:[') and not all(v.startswith('A(') for v in values_of(ga[kk])):
+                    res.violation('concrete', sig_of(c, 'mode-unwrapped'), 'accessor mode returned a plain value for %r' % (c.path,), c, observed=ga[kk])
+            r0 = gp.get('R0', '')
+            if gp.get('C0') or b'?(' in c.path or (r0.startswith('ok:') and len(values_of(r0)) >= 2):
+                res.nontrivial.add((c.path, core.doc_render(c.docs[0]) if c.docs else ''))
+                if len(res.samples) < 5 and r0.startswith('ok:'):
+                    res.sample({'path': c.path.decode('utf-8', 'replace'), 'plain': r0[:200], 'accessor': ga.get('R0', '')[:200], 'calls': gp.get('C0', '')[:200]})
+            res.dist[cls_of(r0 or 'P')] += 1
+
+    def replay(self, ctx, res, v):
+        c = case_from_desc(v['case'])
+        c.acc = False
+        a = Case('a', c.path, c.docs, c.filters, c.aggs, True, c.nocfg, c.mode)
+        go, mo = both_sides([c, a])
+        for x in go + mo:
+            print(x)
+        for kk in rkeys(go[0], 'R'):
+            if go[0][kk] != unwrap_acc(go[1].get(kk, '')) or go[0].get('C' + kk[1:]) != go[1].get('C' + kk[1:]):
+                res.violation('concrete', 'replay', 'modes differ', c)
+        if {k: x for k, x in go[1].items() if k[0] in 'RC'} != {k: x for k, x in mo[1].items() if k[0] in 'RC'}:
+            res.violation('concrete', 'replay', 'accessor mode differs from the model', c)
+
+
+# =======================================================================================
+def pairwise_distinct_leaves(g, d, counter):
+    t = d[0]
+    if t == 'a':
+        return ('a', [pairwise_distinct_leaves(g, x, counter) for x in d[1]])
+    if t == 'o':
+        return ('o', [(k, pairwise_distinct_leaves(g, v, counter)) for k, v in d[1]])
+    counter[0] += 1
+    return ('n', float(1000 + counter[0])) if counter[0] % 2 else ('s', b'leaf%d' % counter[0])
+
+
+def has_func(path):
+    return b'()' in path
+
+
+@register
+class C13(Prop):
+    id = 'C13'
+    rule = ('accessor mode, documents with pairwise distinct leaves: for every accessor index i a unique sentinel is Set '
+            'on a fresh copy of the document, the document is searched for it (exactly one location, everything else '
+            'unchanged, Get returns it afterwards) and the location is compared with the one the model predicts; Set must be '
+            'nil exactly for the root and for function outputs. Non-trivial: >= 2 accessors on a document of depth >= 2')
+    trusted = TRUSTED_EVAL + ['documents are trees (no sub-map or sub-slice reachable twice)',
+                              'members of a function output are outside the property (DESIGN §6 C13)']
+
+    def run(self, ctx, res, budget_scale=1, seed_offset=0):
+        g = gens.G(ctx.seed * 41 + 13 + seed_offset)
+        r = g.r
+        n = ctx.n(1500, 30000) * budget_scale
+        cases = load_corpus(self.id, ctx.root) if seed_offset == 0 else []
+        for i in range(n):
+            doc = g.filter_doc(False, 0) if r.random() < 0.4 else g.doc(3, False, 0)
+            if r.random() < 0.7:
+                doc = pairwise_distinct_leaves(g, doc, [0])
+            steps = g.gen_path(doc, 4, 0.15)
+            f, a = gens.funcs_used(steps)
+            cases.append(Case('l%d' % i, gens.render_path(steps), [doc], f, a, True, False, 'loc'))
+        for c in cases:
+            c.acc, c.mode = True, 'loc'
+        go, mo = both_sides(cases)
+        for c, g_, m in zip(cases, go, mo):
+            res.evaluations += 1
+            hp = harness_problem(g_) or harness_problem(m)
+            if hp:
+                res.violation('broken-correspondence', 'harness:' + hp[:60], hp, c)
+                continue
+            r0 = g_.get('R0', '')
+            if not r0.startswith('ok:[') or not m.get('R0', '').startswith('ok:['):
+                if cls_of(r0 or g_.get('P', '')) != cls_of(m.get('R0', '') or m.get('P', '')):
+                    res.violation('concrete', sig_of(c, 'loc-outcome'), 'outcome differs from the model for %r' % (c.path,), c,
+                                  expected=m.get('R0') or m.get('P'), observed=r0 or g_.get('P'))
+                continue
+            lg, lm = g_.get('L0', '').split(','), m.get('L0', '').split(',')
+            vals = values_of(r0)
+            if len(lg) != len(vals):
+                res.violation('concrete', sig_of(c, 'loc-count'), 'location probe failed for %r: %s' % (c.path, g_.get('L0')), c, observed=g_.get('L0'))
+                continue
+            fn = has_func(c.path)
+            bad = None
+            for i, (a, b) in enumerate(zip(lg, lm)):
+                if '!' in a or a.startswith('multi:') or a == 'v':
+                    bad = 'accessor %d of %r: Set/Get misbehave (%s)' % (i, c.path, a)
+                elif fn and (b == '?' or a == 'detached'):
+                    continue            # member of a function output: outside the property
+                elif a == 'detached':
+                    bad = 'accessor %d of %r: Set does not write into the document' % (i, c.path)
+                elif a != b:
+                    bad = 'accessor %d of %r writes %s, the model predicts %s' % (i, c.path, a, b)
+                if bad:
+                    break
+            if bad:
+                res.disagreements_checked += 1
+                res.violation('concrete', sig_of(c, 'set-location'), bad, c, expected=m.get('L0'), observed=g_.get('L0'))
+            if len(vals) >= 2:
+                res.nontrivial.add((c.path, core.doc_render(c.docs[0])))
+                if len(res.samples) < 5:
+                    res.sample({'path': c.path.decode('utf-8', 'replace'), 'doc': core.doc_json_text(c.docs[0])[:300], 'locations': g_.get('L0', '')[:300]})
+            res.dist['accessors-%d' % min(len(vals), 5)] += 1
+
+    def replay(self, ctx, res, v):
+        c = case_from_desc(v['case'])
+        c.acc, c.mode = True, 'loc'
+        go, mo = both_sides([c])
+        print('implementation:', go[0])
+        print('model         :', mo[0])
+        lg, lm = go[0].get('L0', ''), mo[0].get('L0', '')
+        if '!' in lg or 'multi' in lg or (not has_func(c.path) and lg != lm):
+            res.violation('concrete', 'replay', 'locations differ / Set misbehaves', c)
+
+
+# =======================================================================================
+@register
+class C14(Prop):
+    id = 'C14'
+    rule = ('paths of every step-kind sequence followed by 1..3 library functions (filter/aggregate in every order, also '
+            'inside filter operands) with recording functions: the argument logs and results are compared with the model; '
+            'direct oracle for `P.f()` / `P.g()`: f is called once per value P returns, in order, with that value; g '
+            'exactly once with all of them (or with the elements of the single array a single-valued P selects); a '
+            'FunctionFailed error names a function that failed. Non-trivial: a function received >= 2 values or >= 1 call failed')
+    trusted = TRUSTED_EVAL + ['user functions are modelled as pure total functions with an error result']
+
+    def run(self, ctx, res, budget_scale=1, seed_offset=0):
+        g = gens.G(ctx.seed * 43 + 14 + seed_offset)
+        r = g.r
+        n = ctx.n(3000, 60000) * budget_scale
+        cases = load_corpus(self.id, ctx.root) if seed_offset == 0 else []
+        pre_of = {}
+        pres = []
+        for i in range(n):
+            jn = r.random() < 0.15
+            doc = g.filter_doc(jn, 0) if r.random() < 0.4 else g.doc(3, jn, 0)
+            steps = g.gen_path(doc, 3, 0.0 if r.random() < 0.7 else 0.4)
+            nf = r.randint(1, 3)
+            fs = [(('ffun', r.choice(gens.FILTER_FUNCS)) if r.random() < 0.5 else ('agg', r.choice(gens.AGG_FUNCS))) for _ in range(nf)]
+            f, a = gens.funcs_used(steps + fs)
+            c = Case('f%d' % i, gens.render_path(steps + fs), [doc], f, a, r.random() < 0.15, meta={'fs': fs, 'nsteps': len(steps)})
+            cases.append(c)
+            if not any(s[0] in ('ffun', 'agg') for s in steps) and b'()' not in gens.render_path(steps):
+                pre_of[c.id] = len(pres)
+                pres.append(Case('p%d' % i, gens.render_path(steps), [doc], f, a, False))
+        go, mo = both_sides(cases)
+        go_p = core.run_go(pres) if pres else []
+        for c, g_, m in zip(cases, go, mo):
+            res.evaluations += 1
+            hp = harness_problem(g_) or harness_problem(m)
+            if hp:
+                res.violation('broken-correspondence', 'harness:' + hp[:60], hp, c)
+                continue
+            pg = {k: v for k, v in g_.items() if k[0] in 'RC'}
+            pm = {k: v for k, v in m.items() if k[0] in 'RC'}
+            if pg != pm or pclass(g_.get('P', '')) != pclass(m.get('P', '')):
+                res.disagreements_checked += 1
+                res.violation('concrete', sig_of(c, 'calls-vs-model'), 'function calls / results of %r differ from the model' % (c.path,), c,
+                              expected=pm, observed=pg)
+            calls = split_calls(g_.get('C0', ''))
+            r0 = g_.get('R0', '')
+            if cls_of(r0) == 'ff' and not any(call_fails(x) for x in calls):
+                res.violation('concrete', sig_of(c, 'ff-without-failure'), 'FunctionFailed but no function failed: %r' % (c.path,), c, observed=g_)
+            if cls_of(r0) == 'ff':
+                name = unhx(r0.split(':')[1]).decode('utf-8', 'replace').strip('.()')
+                if not any(call_fails(x) and re.match(r'[FG]\(%s,' % re.escape(name), x) for x in calls):
+                    res.violation('concrete', sig_of(c, 'ff-wrong-name'), 'FunctionFailed names %s which did not fail: %r' % (name, c.path), c, observed=g_)
+            # direct protocol oracle for the first function after a function-free prefix
+            if c.id in pre_of and g_.get('P') == 'ok' and not c.acc and \
+                    sum(1 for s_ in c.meta['fs'] if s_[1] == c.meta['fs'][0][1]) == 1:
+                rp = go_p[pre_of[c.id]].get('R0', '')
+                kind, name = c.meta['fs'][0]
+                first = [x for x in calls if re.match(r'[FG]\(%s,' % name, x)]
+                if rp.startswith('ok:['):
+                    vals = values_of(rp)
+                    if kind == 'ffun':
+                        want = ['F(%s,%s)' % (name, v) for v in vals]
+                        # later functions of the same name may add calls: compare the prefix subsequence
+                        same_later = any(s == (kind, name) for s in c.meta['fs'][1:])
+                        got = [x for x in calls if x.startswith('F(%s,' % name)]
+                        if (got[:len(want)] != want) or (not same_later and got != want):
+                            res.violation('concrete', sig_of(c, 'filter-fn-protocol'),
+                                          'filter function %s must be called once per selected value, in order: %r' % (name, c.path), c,
+                                          expected=want, observed=got)
+                    else:
+                        got = [x for x in calls if x.startswith('G(%s,' % name)]
+                        w_all = 'G(%s,[%s])' % (name, ','.join(vals))
+                        w_elems = 'G(%s,%s)' % (name, vals[0]) if len(vals) == 1 and vals[0].startswith('[') else None
+                        same_later = any(s == (kind, name) for s in c.meta['fs'][1:])
+                        if not got or got[0] not in (w_all, w_elems) or (not same_later and len(got) != 1):
+                            res.violation('concrete', sig_of(c, 'aggregate-protocol'),
+                                          'aggregate %s must be called exactly once with all selected values: %r' % (name, c.path), c,
+                                          expected=[w_all, w_elems], observed=got)
+                elif cls_of(rp) in ('mne', 'tum') and first:
+                    res.violation('concrete', sig_of(c, 'fn-called-without-values'), 'function %s called although the path selects nothing: %r' % (name, c.path), c, observed=calls)
+            if any(call_fails(x) for x in calls) or any(x.count(',') >= 2 for x in calls) or len(calls) >= 2:
+                res.nontrivial.add((c.path, core.doc_render(c.docs[0])))
+                if len(res.samples) < 5:
+                    res.sample({'path': c.path.decode('utf-8', 'replace'), 'doc': core.doc_json_text(c.docs[0])[:200], 'calls': g_.get('C0', '')[:300], 'result': r0[:200]})
+            res.dist[cls_of(r0 or 'P')] += 1
+
+    def replay(self, ctx, res, v):
+        replay_generic(self, ctx, res, v, lambda o, c: {k: x for k, x in o.items() if k[0] in 'RC'}, 'calls')
+
+
+# =======================================================================================
+def single_path_expectation(steps, doc):
+    """for a path of name / single-index steps: the first failing step and its error, or None"""
+    cur = doc
+    for st in steps:
+        if st[0] == 'name':
+            text = gens.render_step(st, gens.Spelling())
+            if cur[0] != 'o':
+                return ('tum', text, 'object', cur)
+            nxt = None
+            for k, v in cur[1]:
+                if k == st[1]:
+                    nxt = v
+            if nxt is None:
+                return ('mne', text)
+            cur = nxt
+        else:
+            i = st[1][0][1]
+            text = gens.render_step(st, gens.Spelling())
+            if cur[0] != 'a':
+                return ('tum', text, 'array', cur)
+            n = len(cur[1])
+            if not (-n <= i < n):
+                return ('mne', text)
+            cur = cur[1][i]
+    return None
+
+
+GO_TYPE = {'z': b'null', 'b': b'bool', 'n': b'float64', 'j': b'json.Number', 's': b'string', 'a': b'[]interface {}', 'o': b'map[string]interface {}'}
+
+
+@register
+class C15(Prop):
+    id = 'C15'
+    rule = ('failing (path, document) pairs from the C01 generators: error type, path text, expected and found compared '
+            'exactly with the model (which keeps the connected-text ranking); for single-valued name/index paths the '
+            'error must be the first failing step with the right kind, computed independently in the harness. '
+            'Non-trivial: the retrieval fails on a path of >= 2 steps')
+    trusted = TRUSTED_EVAL
+
+    def run(self, ctx, res, budget_scale=1, seed_offset=0):
+        g = gens.G(ctx.seed * 47 + 15 + seed_offset)
+        r = g.r
+        n = ctx.n(4000, 80000) * budget_scale
+        cases = load_corpus(self.id, ctx.root) if seed_offset == 0 else []
+        expect = {}
+        cases += mk_eval_cases(g, n * 2 // 3, 'e', funcs=0.2, acc=0.1, jnum=0.15, filter_heavy=0.3)
+        for i in range(n // 3):
+            jn = r.random() < 0.2
+            doc = g.doc(4, jn, 0)
+            steps, _ = g.gen_single_steps(doc, r.randint(1, 5))
+            c = Case('s%d' % i, gens.render_path(steps), [doc])
+            cases.append(c)
+            expect[c.id] = single_path_expectation(steps, doc)
+        go, mo = both_sides(cases)
+        for c, g_, m in zip(cases, go, mo):
+            res.evaluations += 1
+            hp = harness_problem(g_) or harness_problem(m)
+            if hp:
+                res.violation('broken-correspondence', 'harness:' + hp[:60], hp, c)
+                continue
+            a = g_.get('R0', 'P:' + g_.get('P', ''))
+            b = m.get('R0', 'P:' + m.get('P', ''))
+            fa = a if not a.startswith('ok:') else 'ok'
+            fb = b if not b.startswith('ok:') else 'ok'
+            if fa != fb:
+                res.disagreements_checked += 1
+                res.violation('concrete', sig_of(c, 'error-vs-model'), 'error reported for %r differs from the model' % (c.path,), c, expected=b, observed=a)
+            if '!badtext' in a:
+                res.violation('concrete', sig_of(c, 'error-text'), 'Error() text does not match the error fields: %r' % (c.path,), c, observed=a)
+            if c.id in expect:
+                e = expect[c.id]
+                if e is None:
+                    want = 'ok'
+                elif e[0] == 'mne':
+                    want = 'mne:' + hx(e[1])
+                else:
+                    want = 'tum:%s:%s:%s' % (hx(e[1]), e[2], hx(GO_TYPE[e[3][0]]))
+                if fa != want:
+                    res.violation('concrete', sig_of(c, 'first-failing-step'),
+                                  'single-valued path %r must report its first failing step' % (c.path,), c, expected=want, observed=a)
+            if fa != 'ok' and g_.get('P') == 'ok' and (c.meta.get('nsteps', 0) >= 2 or c.id in expect):
+                res.nontrivial.add((c.path, core.doc_render(c.docs[0])))
+                if len(res.samples) < 5:
+                    res.sample({'path': c.path.decode('utf-8', 'replace'), 'doc': core.doc_json_text(c.docs[0])[:200], 'error': a})
+            res.dist[cls_of(a)] += 1
+
+    def replay(self, ctx, res, v):
+        replay_generic(self, ctx, res, v, lambda o, c: {k: (x if not x.startswith('ok:') else 'ok') for k, x in o.items() if k[0] == 'R'}, 'error')
+
+
+# =======================================================================================
+KEY_ALPHABET = [0x20, 0x21, 0x22, 0x23, 0x24, 0x27, 0x28, 0x29, 0x2a, 0x2c, 0x2d, 0x2e, 0x2f, 0x3a, 0x3f, 0x40, 0x5b, 0x5c,
+                0x5d, 0x5f, 0x60, 0x7b, 0x7e, 0x7f, 0x00, 0x01, 0x08, 0x09, 0x0a, 0x0d, 0x1f, 0x30, 0x41, 0x61, 0x62, 0x6e,
+                0x74, 0x75, 0x78, 0xe9, 0x3042, 0xfffd, 0xffff, 0xd7ff, 0xe000, 0x10000, 0x1f600, 0x10ffff, 0x80, 0x7ff, 0x800]
+
+
+def gen_key(r):
+    k = r.random()
+    if k < 0.08:
+        return ''
+    if k < 0.2:
+        return r.choice(['\\n', '\\u0041', 'a\\', '\\\\', "\\'", '\\"', '\\ud83d', '\\ud83d\\ude00', 'a.b', "it's", 'say "x"',
+                         '\\/', '\\b', '$', '@', '*', '..', '()', 'a()', '[0]', "']", '\\x', '\\u12', 'a b', ' ', 'true', '1', '-1'])
+    return ''.join(chr(r.choice(KEY_ALPHABET)) for _ in range(r.randint(1, 12 if r.random() < 0.3 else 4)))
+
+
+def near_misses(r, key):
+    out = set()
+    if '\\' in key:
+        out.add(key.replace('\\', ''))
+        out.add(key.replace('\\', '\\\\'))
+    else:
+        out.add('\\' + key)
+    out.add(key + 'x')
+    if key:
+        out.add(key[:-1])
+        out.add(key.swapcase())
+    out.discard(key)
+    return sorted(out)[:r.randint(0, 3)]
+
+
+@register
+class C16(Prop):
+    id = 'C16'
+    rule = ('keys from all Unicode planes, ASCII symbols, controls and escape-like sequences, length 0..12, alone and '
+            "among near-miss sibling keys: the spellings ['k'], [\"k\"] (JSON-style escaping) and, for non-empty control-free "
+            'keys, .k with every symbol backslash-escaped must return exactly that member, in five positions (root, after a '
+            'name, after .., inside a filter operand, inside a multi-name selector); expected value by direct map lookup in '
+            'the harness, and compared with the model. Non-trivial: the key needs escaping in some spelling')
+    trusted = TRUSTED_PARSE + ['encoding/json string unquoting is modelled concretely in coq/Text.v']
+
+    def run(self, ctx, res, budget_scale=1, seed_offset=0):
+        r = random.Random(ctx.seed * 53 + 16 + seed_offset)
+        n = ctx.n(4000, 120000) * budget_scale
+        cases = load_corpus(self.id, ctx.root) if seed_offset == 0 else []
+        want = {}
+        for i in range(n):
+            key = gen_key(r)
+            kb = key.encode('utf-8')
+            sibs = [s for s in near_misses(r, key)]
+            members = [(kb, ('n', 1.0))] + [(s.encode('utf-8'), ('n', float(j + 2))) for j, s in enumerate(sibs)]
+            r.shuffle(members)
+            obj = ('o', members)
+            spell = [b"['" + gens.esc_json(kb, "'") + b"']", b'["' + gens.esc_json(kb, '"') + b'"]']
+            dot = gens.esc_dot(kb)
+            if dot is not None and not any(ord(ch) < 0x20 or ch == '\x7f' for ch in key):
+                spell.append(b'.' + dot)
+            pos = r.randint(0, 4)
+            for j, sp in enumerate(spell):
+                cid = 'k%d_%d' % (i, j)
+                if pos == 0:
+                    c = Case(cid, b'$' + sp, [obj])
+                    w = 'ok:[n(1,0)]'
+                elif pos == 1:
+                    c = Case(cid, b'$.w' + sp, [('o', [(b'w', obj)])])
+                    w = 'ok:[n(1,0)]'
+                elif pos == 2:
+                    dotless = sp[1:] if sp.startswith(b'.') else sp
+                    c = Case(cid, b'$..' + dotless, [('a', [obj])])
+                    w = 'ok:[n(1,0)]'
+                elif pos == 3:
+                    c = Case(cid, b'$[?(@' + sp + b' == 1)]', [('a', [obj, ('o', [(b'zz', ('n', 1.0))])])])
+                    w = 'ok:[%s]' % core.doc_render(obj)
+                else:
+                    if sp.startswith(b'.'):
+                        c = Case(cid, b'$' + sp, [obj])
+                        w = 'ok:[n(1,0)]'
+                    else:
+                        c = Case(cid, b"$['zz'," + sp[1:-1] + b']', [('o', members + [(b'zz', ('n', 99.0))])]) if b'zz' != kb else Case(cid, b'$' + sp, [obj])
+                        w = 'ok:[n(99,0),n(1,0)]' if b'zz' != kb else 'ok:[n(1,0)]'
+                c.meta = {'key': key, 'pos': pos, 'escaped': any(ch in "'\"\\" or ord(ch) < 0x20 for ch in key) or (dot is not None and dot != kb)}
+                want[cid] = w
+                cases.append(c)
+        go, mo = both_sides(cases)
+        for c, g_, m in zip(cases, go, mo):
+            res.evaluations += 1
+            hp = harness_problem(g_) or harness_problem(m)
+            if hp:
+                res.violation('broken-correspondence', 'harness:' + hp[:60], hp, c)
+                continue
+            a = g_.get('R0', 'P:' + g_.get('P', ''))
+            b = m.get('R0', 'P:' + m.get('P', ''))
+            if a != b:
+                res.disagreements_checked += 1
+                res.violation('concrete', sig_of(c, 'key-vs-model'), '%r differs from the model' % (c.path,), c, expected=b, observed=a)
+            if c.id in want and a != want[c.id]:
+                res.violation('concrete', sig_of(c, 'key-not-addressed'),
+                              'the selector %r does not return exactly the member named %r' % (c.path, c.meta.get('key')), c,
+                              expected=want[c.id], observed=a)
+            if c.meta.get('escaped'):
+                res.nontrivial.add(c.path)
+                if len(res.samples) < 6:
+                    res.sample({'key': c.meta.get('key'), 'path': c.path.decode('utf-8', 'replace'), 'observed': a})
+            res.dist['pos-%s' % c.meta.get('pos')] += 1
+
+    def replay(self, ctx, res, v):
+        replay_generic(self, ctx, res, v, lambda o, c: {k: x for k, x in o.items() if k[0] in 'PR'}, 'key')
+        c = case_from_desc(v['case'])
+        if 'expected' in v and isinstance(v['expected'], str) and v['expected'].startswith('ok:'):
+            g_ = core.run_go([c])[0]
+            if g_.get('R0') != v['expected']:
+                res.violation('concrete', 'replay', 'member not addressed: %s' % g_.get('R0'), c)
+
+
+# =======================================================================================
+@register
+class C18(Prop):
+    id = 'C18'
+    rule = ('each generated path AST rendered in 2..6 random spellings (optional spaces at every point the grammar allows, '
+            'quote style, +sign / leading zeros, .* vs [*], .name vs [\'name\'], leading $ omitted) over generated documents: all '
+            'spellings must return the same values, or errors of the same type; each spelling also compared with the model. '
+            'Non-trivial: >= 2 distinct spellings and the path selects something or has >= 2 steps')
+    trusted = TRUSTED_PARSE + TRUSTED_EVAL
+
+    def run(self, ctx, res, budget_scale=1, seed_offset=0):
+        g = gens.G(ctx.seed * 59 + 18 + seed_offset)
+        r = g.r
+        n = ctx.n(2000, 40000) * budget_scale
+        groups = []
+        cases = load_corpus(self.id, ctx.root) if seed_offset == 0 else []
+        for c in cases:
+            groups.append([c])
+        for i in range(n):
+            jn = r.random() < 0.15
+            doc = g.filter_doc(jn, 0) if r.random() < 0.5 else g.doc(3, jn, 0)
+            steps = g.gen_path(doc, 4, 0.2)
+            f, a = gens.funcs_used(steps)
+            texts = [gens.render_path(steps)]
+            for _ in range(r.randint(1, 5)):
+                texts.append(gens.render_path(steps, gens.Spelling(r, r.choice([0.2, 0.5, 0.9])), dollar=r.random() < 0.7))
+            grp = []
+            for j, t in enumerate(dict.fromkeys(texts)):
+                c = Case('g%d_%d' % (i, j), t, [doc], f, a, meta={'nsteps': len(steps)})
+                grp.append(c)
+                cases.append(c)
+            groups.append(grp)
+        go, mo = both_sides(cases)
+        by_id = {c.id: (g_, m) for c, g_, m in zip(cases, go, mo)}
+        for grp in groups:
+            outs = []
+            for c in grp:
+                res.evaluations += 1
+                g_, m = by_id[c.id]
+                hp = harness_problem(g_) or harness_problem(m)
+                if hp:
+                    res.violation('broken-correspondence', 'harness:' + hp[:60], hp, c)
+                    continue
+                a = g_.get('R0', 'P:' + g_.get('P', ''))
+                b = m.get('R0', 'P:' + m.get('P', ''))
+                if a != b:
+                    res.disagreements_checked += 1
+                    res.violation('concrete', sig_of(c, 'spelling-vs-model'), '%r differs from the model' % (c.path,), c, expected=b, observed=a)
+                outs.append((c, a if a.startswith('ok:') else cls_of(a)))
+            if len({o for _, o in outs}) > 1:
+                c0 = outs[0][0]
+                other = [c for c, o in outs if o != outs[0][1]][0]
+                res.violation('concrete', sig_of(other, 'spelling-changes-behaviour'),
+                              'equivalent spellings behave differently: %r vs %r' % (c0.path, other.path), other,
+                              expected=outs[0][1], observed=[o for _, o in outs], extra={'canonical': c0.describe()})
+            if len(outs) >= 2 and (outs[0][1].startswith('ok:') or outs[0][0].meta.get('nsteps', 0) >= 2):
+                res.nontrivial.add(outs[0][0].path)
+                if len(res.samples) < 5:
+                    res.sample({'spellings': [c.path.decode('utf-8', 'replace') for c, _ in outs], 'outcome': outs[0][1][:200]})
+            res.dist['spellings-%d' % len(outs)] += 1
+
+    def replay(self, ctx, res, v):
+        c = case_from_desc(v['case'])
+        cs = [c]
+        if 'canonical' in v:
+            cs.append(case_from_desc(v['canonical'], 'canon'))
+        go, mo = both_sides(cs)
+        for x in go + mo:
+            print(x)
+        if go[0].get('R0') != mo[0].get('R0') or go[0].get('P') != mo[0].get('P'):
+            res.violation('concrete', 'replay', 'differs from the model', c)
+        if len(cs) == 2:
+            a, b = go[0].get('R0', go[0].get('P')), go[1].get('R0', go[1].get('P'))
+            if (a if a.startswith('ok:') else cls_of(a)) != (b if b.startswith('ok:') else cls_of(b)):
+                res.violation('concrete', 'replay', 'spellings behave differently', c)
+
+
+# =======================================================================================
+FAILING_PATHS = [b'$[99999999999999999999]', b'$.a.nofn()', b'$[(1+1)]', b'$[?(@.* == 1)]', b'$[?(@.a == @.b)]', b'$.a]', b'$[?(@.a =~ /[/)]',
+                 b'$[?(@.a == 1e)]', b"$['\\x']", b'$[?(@.a == 1 && @.b.nofn())]', b'$[?(@.a == 1 && @.b[99999999999999999999])]',
+                 b'$[?(@.a > 1 || @.c == @.d)]', b'$..[?(@.a == $..b)]', b'$[?((@.a == 1) && (@.b =~ /(/))]', b'', b'$$', b'@',
+                 b'$[?(@.a.twice() == 2 && @.b.cnt())]', b'$.a.cnt(', b'$[?(@.a', b'$[0:1:99999999999999999999]']
+LEAK_PROBES = [(b'$.a.twice()', True), (b'$.*.cnt()', True), (b'[?(@.a)]', False), (b'$.a', False), (b"['a','b']", False),
+               (b'$[?(@.a.twice() == 2)]', True), (b'a.b', False), (b'$..a', False), (b'[0]', False), (b'$[?(@.a == 1)]', False)]
+
+
+@register
+class C19(Prop):
+    id = 'C19'
+    rule = ('histories of <= 10 Parse/Retrieve calls in one process mixing valid paths, paths failing at every kind of '
+            'action (bad number, unknown function, script, value-group comparison, two current nodes, bad regex, bad escape, '
+            'trailing garbage — also while a filter operand is half built), configs with different function sets / accessor '
+            'mode / no config, and configs modified after Parse; every outcome is compared with the same call made alone '
+            'in a fresh history and with the model (a pure function of path and config); the parser action state is read '
+            'after every call through the verif hook. Non-trivial: a failing Parse is followed by a Parse with another or no config')
+    trusted = TRUSTED_PARSE + ['value capture of Go closures (functions kept after the Config is modified) is observed dynamically only']
+
+    def run(self, ctx, res, budget_scale=1, seed_offset=0):
+        import json
+        init_globals()
+        g = gens.G(ctx.seed * 61 + 19 + seed_offset)
+        r = g.r
+        n = ctx.n(500, 10000) * budget_scale
+        doc = ('o', [(b'a', ('n', 1.0)), (b'b', ('a', [('n', 1.0), ('n', 2.0)])), (b'c', ('o', [(b'a', ('n', 3.0))]))])
+        doc2 = ('a', [('o', [(b'a', ('n', 1.0)), (b'b', ('n', 5.0))]), ('o', [(b'a', ('n', 2.0))])])
+        hists = []
+        singles = {}
+        for i in range(n):
+            ops = []
+            interesting = False
+            failed_before = False
+            for k in range(r.randint(2, 10)):
+                x = r.random()
+                if x < 0.3:
+                    path = r.choice(FAILING_PATHS)
+                    needs = False
+                elif x < 0.4:
+                    path = strgen.mutate(r, r.choice(FAILING_PATHS + [p for p, _ in LEAK_PROBES]))
+                    needs = False
+                elif x < 0.75:
+                    path, needs = r.choice(LEAK_PROBES)
+                else:
+                    path = strgen.grammar_path(g, funcs=0.4)[0][:200]
+                    needs = False
+                cfgk = r.random()
+                if cfgk < 0.35:
+                    cfg = {'filters': [], 'aggs': [], 'acc': False, 'nocfg': True}
+                elif cfgk < 0.55:
+                    cfg = {'filters': [], 'aggs': [], 'acc': r.random() < 0.5, 'nocfg': False}
+                elif cfgk < 0.7:
+                    cfg = {'filters': r.sample(gens.FILTER_FUNCS, 2), 'aggs': r.sample(gens.AGG_FUNCS, 2), 'acc': r.random() < 0.3, 'nocfg': False}
+                else:
+                    cfg = {'filters': gens.FILTER_FUNCS, 'aggs': gens.AGG_FUNCS, 'acc': r.random() < 0.3, 'nocfg': False}
+                d = doc if r.random() < 0.6 else doc2
+                op = dict(op='retrieve', path_hex=hx(path), doc=core.doc_go(d), mutate=r.random() < 0.2, **cfg)
+                ops.append((op, d))
+                if failed_before and (cfg['nocfg'] or not cfg['filters']):
+                    interesting = True
+                if path in FAILING_PATHS:
+                    failed_before = True
+            hists.append((ops, interesting))
+        raws = []
+        for i, (ops, _) in enumerate(hists):
+            raws.append(RawCase('h%d' % i, hist_json('h%d' % i, [o for o, _ in ops])))
+        # the same calls alone (first call of a fresh history) and in the model
+        uniq = {}
+        for ops, _ in hists:
+            for op, d in ops:
+                key = json.dumps([op['path_hex'], op['filters'], op['aggs'], op['acc'], op['nocfg'], core.doc_render(d)])
+                if key not in uniq:
+                    cid = 'u%d' % len(uniq)
+                    op1 = dict(op, mutate=False)
+                    uniq[key] = (RawCase(cid, hist_json(cid, [op1])),
+                                 Case(cid, unhx(op['path_hex']), [d], op['filters'], op['aggs'], op['acc'], op['nocfg']))
+        gos = core.run_go(raws)
+        ukeys = list(uniq)
+        go_u = core.run_go([uniq[k][0] for k in ukeys], jobs=16)
+        mcases = [uniq[k][1] for k in ukeys]
+        core.fill_tables(mcases)
+        mo_u = core.run_model(mcases)
+        alone = {}
+        for k, gu, mu, mc in zip(ukeys, go_u, mo_u, mcases):
+            res.evaluations += 1
+            hp = harness_problem(gu) or harness_problem(mu)
+            if hp:
+                res.violation('broken-correspondence', 'harness:' + hp[:60], hp, mc)
+                continue
+            o = gu.get('O0', gu.get('P', ''))
+            alone[k] = o
+            if mu.get('P') == 'ok':
+                want = '%s|%s' % (mu.get('R0', ''), mu.get('C0', ''))
+            else:
+                want = mu.get('P', '')
+            if o != want and not (pclass(o) == pclass(want) and pclass(o) in ('arg', 'syn', 'fnf', 'nsp') and o.split('!')[0] == want):
+                res.disagreements_checked += 1
+                res.violation('concrete', sig_of(mc, 'parse-alone-vs-model'), 'Parse+call of %r alone differs from the model' % (mc.path,), mc,
+                              expected=want, observed=o)
+        for (ops, interesting), raw, g_ in zip(hists, raws, gos):
+            res.evaluations += 1
+            bad = None
+            for k, (op, d) in enumerate(ops):
+                key = json.dumps([op['path_hex'], op['filters'], op['aggs'], op['acc'], op['nocfg'], core.doc_render(d)])
+                o = g_.get('O%d' % k, g_.get('P', ''))
+                if key in alone and o != alone[key]:
+                    bad = (k, o, alone[key])
+                    break
+            if bad or g_.get('G', '') != GLOBALS_INIT or 'STALE' in g_:
+                k, o, want = bad or (-1, g_.get('G'), GLOBALS_INIT)
+                desc = {'history': [dict(path=unhx(op['path_hex']).decode('utf-8', 'replace'), **{x: op[x] for x in ('filters', 'aggs', 'acc', 'nocfg', 'mutate')}) for op, _ in ops],
+                        'ops': [op for op, _ in ops], 'failing_call': k}
+                res.violation('concrete', 'history|' + '|'.join(h['path'] for h in desc['history'][:k + 1]),
+                              'call %d of the history behaves differently from the same call made alone' % k, desc, expected=want, observed=o)
+            if interesting:
+                res.nontrivial.add(raw.id)
+                if len(res.samples) < 4:
+                    res.sample({'history': [unhx(op['path_hex']).decode('utf-8', 'replace') + (' (no config)' if op['nocfg'] else ' (%d functions%s)' % (len(op['filters']) + len(op['aggs']), ', accessor' if op['acc'] else ''))
+                                            for op, _ in ops], 'outcomes': [g_.get('O%d' % k, '')[:80] for k in range(len(ops))]})
+            res.dist['history-len-%d' % len(ops)] += 1
+
+    def replay(self, ctx, res, v):
+        ops = v['case']['ops']
+        g_ = core.run_go([RawCase('r', hist_json('r', ops))])[0]
+        print('history :', g_)
+        for k, op in enumerate(ops):
+            a = core.run_go([RawCase('a', hist_json('a', [dict(op, mutate=False)]))])[0]
+            if a.get('O0') != g_.get('O%d' % k):
+                print('call %d alone: %s' % (k, a.get('O0')))
+                res.violation('concrete', 'replay', 'call %d differs from the same call alone' % k, v['case'])
+                return
+
+
+# =======================================================================================
+@register
+class C20(EvalProp):
+    id = 'C20'
+    what = 'behaviour on non-JSON Go values'
+    rule = ('generator documents with a random subset of leaves replaced by values of 26 non-JSON Go types (ints, structs, '
+            'struct{}, typed maps/slices, pointers, typed nils, funcs, channels, arrays, NaN, time.Time, error, Accessor), all '
+            'parsable generated paths incl. existence tests, literal/ordering/regex/deep-equal comparisons and functions; '
+            'results, errors (found type) and call logs compared with the model; any panic / undocumented error is a '
+            'violation. Non-trivial: the document contains a foreign value and the path parses')
+
+    def quick_n(self):
+        return 4000
+
+    def thorough_n(self):
+        return 80000
+
+    def cases(self, ctx, g, n):
+        cs = mk_eval_cases(g, n, 'c', funcs=0.3, acc=0.1, jnum=0.1, opaque=0.3, filter_heavy=0.6)
+        return cs
+
+    def project(self, o, c):
+        return {k: v for k, v in o.items() if k[0] in 'RC' or k == 'P' and False} | {'P': pclass(o.get('P', ''))}
+
+    def nontrivial(self, c, g):
+        return g.get('P') == 'ok' and '<go:' in core.doc_json_text(c.docs[0])
+
+    def on_go(self, res):
+        def f(c, g):
+            for k in rkeys(g, 'R'):
+                if crashy(g[k]):
+                    res.violation('concrete', sig_of(c, 'foreign-value-crash'), 'outcome %s for %r' % (g[k][:200], c.path), c, observed=g[k])
+        return f
